@@ -12,6 +12,20 @@ document means the forest (so this generator is held to the spec), then that rbx
 """
 import argparse
 import base64
+
+
+def wrap64(rng, b):
+    """line-wrapped base64 (RFC 2045: line breaks and other characters outside the alphabet are
+    ignored by decoders), with the continuation lines indented the way pretty-printers do"""
+    if rng.random() < 0.45:
+        return b
+    width = rng.choice([4, 40, 64, 76])
+    sep = rng.choice(["\n", "\r\n", "\n\t", "\n    ", "\r\n\t\t", " "])
+    lines = [b[i:i + width] for i in range(0, len(b), width)] or [""]
+    out = sep.join(lines)
+    if rng.random() < 0.4:
+        out = sep + out + rng.choice(["\n", "\n\t", sep])
+    return out
 import json
 import random
 import struct
@@ -96,8 +110,7 @@ def make_value(rng, ty, n_inst):
     if ty == 'BinaryString':
         data = bytes(rng.randrange(256) for _ in range(rng.choice([0, 1, 5, 80, 200])))
         b = base64.b64encode(data).decode()
-        if rng.random() < 0.5 and len(b) > 40:
-            b = "\n".join(b[i:i + 40] for i in range(0, len(b), 40))     # line-wrapped (RFC 2045)
+        b = wrap64(rng, b)
         return {"t": "BinaryString", "v": list(data)}, simple("BinaryString", b)
     if ty == 'Vector3':
         comps = [fl(rng) for _ in range(3)]
@@ -306,7 +319,7 @@ def generate(rng, ep):
     if shared:
         d.line(1, '<SharedStrings>')
         for key, data in shared.items():
-            d.line(2, '<SharedString md5="%s">%s</SharedString>' % (key, base64.b64encode(data).decode()))
+            d.line(2, '<SharedString md5="%s">%s</SharedString>' % (key, wrap64(d.rng, base64.b64encode(data).decode())))
         d.line(1, '</SharedStrings>')
     d.line(0, '</roblox>')
     return {"ep": ep, "logical": {"roots": roots, "inst": forest}, "text": "".join(d.out),
